@@ -6,6 +6,10 @@ Driver of C08. One request per line:
 
   val <postfix program>          evaluate an operation tree, print the resulting object
   fmt <spec cps> <program>       `format(x, spec)` as screen cells
+  fmtv <via> <spec cps> <program> the same reached through another entry point (`x.__format__(spec)`, an f-string
+                                 `f"{x:{spec}}"` / `f"{x:<literal spec>}"`, `"{:{}}".format(x, spec)`, `"{:<literal>}".format(x)`,
+                                 `format_map`): CPython hands the spec unchanged to `type(x).__format__`, so the model
+                                 answers as for `fmt` (the entry point is not part of the model; the tie compares it)
   eq <program leaving two values> `a == b`
   make <c:col:cps …>              `CHText.make([chunks])`
   resize <n> <c:col:cps …>        `CHText.resize_chunks_list([chunks], n)`
@@ -192,6 +196,10 @@ def handle (line : String) : String :=
     | some [e] => showFail showPart (eval e)
     | _ => "bad-op"
   | "fmt" :: spec :: toks =>
+    match parseCps spec, parseProg toks with
+    | some sp, some [e] => showFail (fun c => "F " ++ showCells c) (eval e >>= fun p => pyFormat p sp)
+    | _, _ => "bad-op"
+  | "fmtv" :: _via :: spec :: toks =>
     match parseCps spec, parseProg toks with
     | some sp, some [e] => showFail (fun c => "F " ++ showCells c) (eval e >>= fun p => pyFormat p sp)
     | _, _ => "bad-op"
